@@ -12,11 +12,13 @@ pub fn hex(b: &[u8]) -> String {
     if b.is_empty() {
         return "-".to_string();
     }
-    let mut s = String::with_capacity(b.len() * 2);
+    const H: &[u8; 16] = b"0123456789abcdef";
+    let mut s = Vec::with_capacity(b.len() * 2);
     for x in b {
-        s.push_str(&format!("{:02x}", x));
+        s.push(H[(x >> 4) as usize]);
+        s.push(H[(x & 15) as usize]);
     }
-    s
+    unsafe { String::from_utf8_unchecked(s) }
 }
 pub fn unhex(s: &str) -> Vec<u8> {
     if s == "-" {
@@ -100,6 +102,24 @@ impl Report {
         s.push_str(&self.violations.iter().map(|v| format!("{{\"signature\": {}, \"what\": {}, \"case\": {}}}", jstr(&v.signature), jstr(&v.what), v.case)).collect::<Vec<_>>().join(",\n  "));
         s.push_str("]\n}\n");
         std::fs::write(dir.join("report.json"), s).unwrap();
+        // line-based twin, for merging shard reports without a JSON parser
+        let mut t = format!("E\t{}\t{}\n", self.evaluations, self.nontrivial);
+        for (k, v) in &self.counters { t.push_str(&format!("C\t{}\t{}\n", k, v)); }
+        for x in &self.samples { t.push_str(&format!("S\t{}\n", x.replace('\n', " ").replace('\t', " "))); }
+        for v in &self.violations { t.push_str(&format!("V\t{}\t{}\t{}\n", v.signature, v.what.replace('\n', " ").replace('\t', " "), v.case.replace('\n', " ").replace('\t', " "))); }
+        std::fs::write(dir.join("report.tsv"), t).unwrap();
+    }
+    pub fn merge_tsv(&mut self, txt: &str) {
+        for l in txt.lines() {
+            let f: Vec<&str> = l.split('\t').collect();
+            match f[0] {
+                "E" => { self.evaluations += f[1].parse().unwrap_or(0); self.nontrivial += f[2].parse().unwrap_or(0); }
+                "C" => self.add(f[1], f[2].parse().unwrap_or(0)),
+                "S" => self.sample(f[1].to_string()),
+                "V" => self.violation(f[1], f[2], f[3].to_string()),
+                _ => {}
+            }
+        }
     }
 }
 pub fn jstr(s: &str) -> String {
@@ -138,4 +158,36 @@ pub fn parse_args() -> Args {
         }
     }
     args
+}
+
+impl Report {
+    pub fn merge(&mut self, o: Report) {
+        self.evaluations += o.evaluations;
+        self.nontrivial += o.nontrivial;
+        for (k, v) in o.counters { *self.counters.entry(k).or_insert(0) += v; }
+        for x in o.samples { self.sample(x); }
+        for v in o.violations { if self.violations.len() < 50 { self.violations.push(v); } }
+    }
+}
+
+/// run `f(0..n)` on 16 threads, results in index order
+pub fn par_tasks<T: Send + 'static, F: Fn(usize) -> T + Send + Sync + 'static>(n: usize, f: F) -> Vec<T> {
+    use std::sync::{Arc, Mutex};
+    let f = Arc::new(f);
+    let next = Arc::new(Mutex::new(0usize));
+    let results: Arc<Mutex<Vec<Option<T>>>> = Arc::new(Mutex::new((0..n).map(|_| None).collect()));
+    let mut hs = vec![];
+    let nt = std::env::var("VERIF_THREADS").ok().and_then(|x| x.parse().ok()).unwrap_or(16usize);
+    for _ in 0..nt.min(n.max(1)) {
+        let (f, next, results) = (f.clone(), next.clone(), results.clone());
+        hs.push(std::thread::Builder::new().stack_size(64 << 20).spawn(move || loop {
+            let i = { let mut g = next.lock().unwrap(); let i = *g; *g += 1; i };
+            if i >= n { break; }
+            let r = f(i);
+            results.lock().unwrap()[i] = Some(r);
+        }).unwrap());
+    }
+    for h in hs { let _ = h.join(); }
+    let mut g = results.lock().unwrap();
+    g.drain(..).map(|x| x.expect("task panicked")).collect()
 }
